@@ -165,6 +165,9 @@ func timeUnix(t time.Time) int64 {
 func (w *world) start(i int, c lcCfg, seed int64, crashAt int, side string) error {
 	w.step()
 	rec := &recorder{w: w, id: i, crashAt: crashAt, side: side}
+	if prev := w.inc[i]; prev != nil {
+		rec.reject = prev.rec.reject // the store's attitude towards this identity outlives the process
+	}
 	inc := &incarnation{id: i, cfg: c, rec: rec}
 	gen := &tokGen{w: w, id: i, rnd: rand.New(rand.NewSource(seed))}
 	path := ""
